@@ -11,8 +11,8 @@ ID = "C09"
 COQ_IMPORT = "Corr.CNodes"
 COQ_CASE_TYPE = "g_case"
 COQ_CHECK = "g_check"
-THEOREMS = ["c09_sound_complete", "c09_never_false", "c09_order_independent"]
-PROOF_FILES = ["Proofs/GraphProofs.v"]
+THEOREMS = ["c09_sound_complete", "c09_never_false", "c09_order_independent", "c09_names_are_opaque"]
+PROOF_FILES = ["Proofs/GraphProofs.v", "Proofs/RenameProofs.v"]
 RULE = ("flat multigraphs of 1..8 leaf nodes, any topology (cycles, self-loops, parallel edges, dangling "
         "endpoints), with input_type/output_type ASSIGNED after construction from the alphabet {attribute None, "
         "{k: None}, shape of rank 0..4 as ndarray or tuple; equal / off-by-one / rank-different}; thorough: "
